@@ -94,6 +94,8 @@ type Enum struct {
 	File   string   `json:"file"`
 	Prim   string   `json:"prim"`
 	Values []string `json:"values"` // Go literal text
+	// SplitFile: if set, the second half of the constants is declared in this other file of the package
+	SplitFile string `json:"split_file,omitempty"`
 }
 
 type Alias struct {
@@ -202,6 +204,39 @@ func Overlap(a, b []string) bool {
 	return true
 }
 
+// MoreSpecific: a and b overlap, differ somewhere, and wherever they differ a has the literal and b the parameter.
+func MoreSpecific(a, b []string) bool {
+	if !Overlap(a, b) {
+		return false
+	}
+	diff := false
+	for i := range a {
+		if a[i] == b[i] {
+			continue
+		}
+		if IsParamSeg(a[i]) && IsParamSeg(b[i]) {
+			continue // both parameters (names may differ)
+		}
+		if IsParamSeg(a[i]) {
+			return false
+		}
+		diff = true
+	}
+	return diff
+}
+
+// RegOrderKey orders routes the way a generator that keeps declaration order registers them:
+// controllers by name, then files by name, then source order.
+func (p *Project) RegOrderKey(rt Route) string {
+	idx := 0
+	for i := range rt.Ctrl.Methods {
+		if &rt.Ctrl.Methods[i] == rt.M {
+			idx = i
+		}
+	}
+	return fmt.Sprintf("%s|%s|%04d", rt.Ctrl.Name, rt.M.File, idx)
+}
+
 // Packages lists the package (directory) names with their files, sorted.
 func (p *Project) Packages() map[string][]string {
 	m := map[string]map[string]bool{}
@@ -222,6 +257,9 @@ func (p *Project) Packages() map[string][]string {
 	}
 	for _, e := range p.Enums {
 		add(e.Pkg, e.File)
+		if e.SplitFile != "" {
+			add(e.Pkg, e.SplitFile)
+		}
 	}
 	for _, a := range p.Aliases {
 		add(a.Pkg, a.File)
